@@ -82,6 +82,7 @@ pub struct ExploreOut {
     pub determinism_reruns: u64,
     pub wall_s: f64,
     pub found_per_key: HashMap<(&'static str, String, String), u64>,
+    pub kept_per_shape: HashMap<((&'static str, String, String), String), u64>,
 }
 
 struct Shared<'a> {
@@ -279,9 +280,15 @@ fn worker(sh: &Shared) {
                     // globally, so that a flood of one kind cannot crowd out another
                     let class = scn.name.split(':').next().unwrap_or("").to_owned();
                     let key = (v.prop, v.kind.clone(), class);
-                    let n = o.found_per_key.entry(key).or_insert(0);
+                    let n = o.found_per_key.entry(key.clone()).or_insert(0);
                     *n += 1;
-                    if *n <= 25 {
+                    // within one key, keep a few examples of every distinct shape of detail text
+                    // (digits ignored), so that one frequent shape cannot hide a rare one
+                    let nodigits: Vec<char> = v.detail.chars().filter(|c| !c.is_ascii_digit()).collect();
+                    let shape: String = nodigits.iter().take(48).chain(nodigits.iter().rev().take(48)).collect();
+                    let m = o.kept_per_shape.entry((key, shape)).or_insert(0);
+                    *m += 1;
+                    if *m <= 8 {
                         o.found.push(Found {
                             scenario: scn.clone(),
                             devs: devs.clone(),
